@@ -152,7 +152,7 @@ pub fn run(ctx: &Ctx) -> Value {
         }
     }
     // 2. dates judged by the specification
-    let mut days: Vec<i64> = Vec::new();
+    let mut days: Vec<i64> = scale_days();      // every binary scale of the range, then the windows
     if ctx.quick() {
         // one year per (weekday of 1 January, leap) class in three different 400-year cycles, both range-end years
         let mut seen = std::collections::HashSet::new();
